@@ -8,7 +8,7 @@ COMMON_TB = [
 ]
 NOTE = ("Trusted: Lean 4.33.0 kernel (axioms propext, Classical.choice, Quot.sound only; no sorry/native_decide); the model is "
         "hand-written and tied to /repo by differential correspondence (Go harness vs compiled Lean driver) on every run; "
-        "Go's regexp/fmt/strconv/reflect behaviour is modelled, not verified. ")
+        "Go's regexp/fmt/strconv/reflect/encoding-json behaviour is modelled, not verified. ")
 
 PROPS, LEVEL_TEXT = {}, {}
 for _m in pkgutil.iter_modules(__path__):
@@ -34,8 +34,8 @@ EXTRA_MODULES = {
     "C14": ["Proofs.C14"],
     "C18": ["Proofs.C18"],
     "C19": ["Proofs.C19"],
-    "C01": ["Proofs.C01", "Proofs.NoPanic", "Proofs.StdNoPanic", "Proofs.ArrNoPanic"],
-    "C02": ["Proofs.C02"],
+    "C01": ["Proofs.C01", "Proofs.NoPanic", "Proofs.StdNoPanic", "Proofs.ArrNoPanic", "Proofs.JsonFilter"],
+    "C02": ["Proofs.C02", "Proofs.JsonFilter"],
     "C03": ["Proofs.C03"],
     "C20": ["Proofs.C20"],
 }
